@@ -1,8 +1,102 @@
-(* C12 — property theorems only. *)
+(* C12 — staged store reads = database with staged writes applied; db scans exact.
+   Property theorems only: full statements, proofs are [exact lemma]. Models: Store.DiffDB (pkg/db/diffdb),
+   Store.PebbleIter (pkg/db iterator.go/db.go/reader.go), specification: Store.DiffDBSpec. *)
 From Coq Require Import List NArith ZArith Bool.
-From LE Require Import Base.Lex Store.SMap Store.PebbleIter Store.DiffDB Store.DiffDBSpec.
+From LE Require Import Base.Lex Store.SMap Store.PebbleIter Store.PebbleIterProofs Store.DiffDB Store.DiffDBProofs
+  Store.DiffDBScanProofs Store.DiffDBSpec Store.DiffDBRefine.
 Import ListNotations.
+
+(* For every initial database, every root prefix and EVERY sequence of get/has/set/del/range/iterate/snapshot/
+   restore/delete-snapshot/with-prefix operations over any number of prefix views (any bounds, limits,
+   directions, key lengths): the list of results of the implementation model equals the list of results of the
+   same operations on ONE sorted map with the staged writes applied (saved maps for snapshots); in particular
+   the model never reaches the panic of cacheDB.set.  Commit then writes exactly that map, and RevertDiff of the
+   returned diff restores the previous database as a list (byte for byte).  [wf_*]: bytes are < 256. *)
+Theorem C12_refinement : forall db root ops, sorted db -> wf_db db -> wf_key root -> Forall op_wf ops ->
+  let d := fst (run db (init_state root) ops) in
+  let s := fst (spec_run (spec_init db root) ops) in
+  snd (run db (init_state root) ops) = snd (spec_run (spec_init db root) ops) /\
+  apply_writes (fst (db_Commit d)) db = s_map s /\
+  apply_writes (revert_writes (snd (db_Commit d))) (apply_writes (fst (db_Commit d)) db) = db.
+Proof. exact diffdb_refinement. Qed.
+
+(* one step, from any related pair of states (the inductive core of the above) *)
+Theorem C12_step_refines : forall db d s o, sorted db -> wf_db db -> R db d s -> op_wf o ->
+  snd (step db d o) = snd (spec_step s o) /\ R db (fst (step db d o)) (fst (spec_step s o)).
+Proof. exact step_refines. Qed.
+
+(* restoring a snapshot returns exactly the staged map at the time of the snapshot, whatever reads, writes,
+   scans, new views and snapshot operations of other views happened in between *)
+Theorem C12_restore_exact : forall s i vw,
+  nth_error (s_views s) i = Some vw ->
+  let s1 := fst (spec_step s (OSnapshot i)) in
+  forall ops, (forall o, In o ops -> no_snap_op_on i o) ->
+  let s2 := fst (spec_run s1 ops) in
+  s_map (fst (spec_step s2 (ORestore i (sv_count vw)))) = s_map s.
+Proof. exact spec_restore_exact. Qed.
+
+Theorem C12_commit_writes_final_state : forall db c m, sorted db -> Inv db c -> sorted m ->
+  (forall k, lookup m k = overlay db c k) -> apply_writes (commit_writes c) db = m.
+Proof. exact commit_writes_final_state. Qed.
+
+Theorem C12_revert_commit_id : forall db c, sorted db -> Inv db c ->
+  apply_writes (revert_writes (diff_of c)) (apply_writes (commit_writes c) db) = db.
+Proof. exact revert_commit_id. Qed.
+
+(* Range / Iterate through a view with prefix pfx, from any cache state representing the map m *)
+Theorem C12_range_exact : forall db c m pfx s e limit reverse,
+  sorted db -> sorted m -> Inv db c -> (forall k, lookup m k = overlay db c k) ->
+  fst (db_Range db c pfx s e limit reverse) =
+    take_limit limit (map (strip (length pfx))
+      (dir reverse (filter (fun x => leb (pfx ++ s) (fst x) && leb (fst x) (pfx ++ e)) m))) /\
+  Inv db (snd (db_Range db c pfx s e limit reverse)) /\
+  forall k, overlay db (snd (db_Range db c pfx s e limit reverse)) k = overlay db c k.
+Proof. exact range_refines. Qed.
+
+Theorem C12_iterate_exact : forall db c m pfx p limit reverse,
+  sorted db -> wf_db db -> wf_key (pfx ++ p) -> sorted m -> Inv db c -> (forall k, lookup m k = overlay db c k) ->
+  fst (db_Iterate db c pfx p limit reverse) =
+    take_limit limit (map (strip (length pfx)) (dir reverse (filter (fun x => is_prefix (pfx ++ p) (fst x)) m))) /\
+  Inv db (snd (db_Iterate db c pfx p limit reverse)) /\
+  forall k, overlay db (snd (db_Iterate db c pfx p limit reverse)) k = overlay db c k.
+Proof. exact iterate_refines. Qed.
+
+(* pkg/db scans: exactly the keys inside the bounds, in order, truncated.  [eff_limit]: -1 = no limit,
+   n >= 1 = the first n; iterator.go counts after appending, so 0 (and negatives other than -1) behave as 1. *)
+Theorem C12_db_scans_exact_range : forall db s e limit reverse, sorted db ->
+  iterate_range db s e limit reverse =
+  eff_limit limit (dir reverse (filter (fun x => leb s (fst x) && leb (fst x) e) db)).
+Proof. exact iterate_range_exact. Qed.
+
+Theorem C12_db_scans_exact_prefix : forall db p limit reverse, wf_key p -> wf_db db ->
+  iterate_prefix db p limit reverse = eff_limit limit (dir reverse (filter (fun x => is_prefix p (fst x)) db)) /\
+  iterate_key db p limit reverse = map fst (eff_limit limit (dir reverse (filter (fun x => is_prefix p (fst x)) db))).
+Proof. intros. split; [apply iterate_prefix_exact|apply iterate_key_exact]; assumption. Qed.
+
+Theorem C12_eff_limit_sane : forall limit (l : list kv),
+  (limit = -1 -> eff_limit limit l = l)%Z /\ (1 <= limit -> eff_limit limit l = firstn (Z.to_nat limit) l)%Z.
+Proof. exact eff_limit_sane. Qed.
 
 Theorem C12_upperBound_spec : forall p k, wf_key p -> wf_key k ->
   is_prefix p k = (leb p k && below_ub k (upper_bound p)).
 Proof. exact upper_bound_spec. Qed.
+
+(* bytes.Compare is a total order (what every "sorted" above means) *)
+Theorem C12_lex_total_order : forall a b c,
+  (ltb a b = true -> ltb b c = true -> ltb a c = true) /\ ltb a a = false /\
+  (a <> b -> ltb a b = true \/ ltb b a = true) /\ (leb a b = true -> leb b a = true -> a = b).
+Proof. intros. repeat split; eauto using ltb_trans, ltb_irrefl, ltb_total, leb_antisym. Qed.
+
+(* non-vacuity: a concrete run with staged delete + limit, prefix views, snapshot/restore *)
+Local Open Scope N_scope.
+Example C12_example_limit_after_delete :
+  snd (run [([10;97],[1]); ([10;98],[2]); ([10;99],[3])] (init_state [10])
+           [ODel 0%nat [97]; ORange 0%nat [97] [122] 1%Z false]) = [RNone; RList [([98],[2])]].
+Proof. vm_compute. reflexivity. Qed.
+
+Example C12_example_views_restore :
+  snd (run [([10;112;107;48],[1])] (init_state [10])
+           [OWithPrefix 0%nat [112]; OSnapshot 0%nat; OSet 1%nat [107;49] [2]; OIterate 1%nat [107] (-1)%Z false;
+            ORestore 0%nat 0; OIterate 1%nat [] (-1)%Z true; OGet 1%nat [107;49]])
+  = [RNone; RId 0; RNone; RList [([107;48],[1]); ([107;49],[2])]; RBool true; RList [([107;48],[1])]; RVal None].
+Proof. vm_compute. reflexivity. Qed.
